@@ -84,27 +84,41 @@ func runC11(p *core.Program, r *core.Report) {
 		}
 		return true
 	}
-	constPrefix := func(cc *ast.CaseClause, want string) bool {
-		ok := false
+	// constPrefix: the string constants of the arm (format strings or concatenation operands), in
+	// source order, contain the constructor's tokens in order ("map[" ... "]")
+	constPrefix := func(cc *ast.CaseClause, tokens ...string) bool {
+		var sb strings.Builder
 		ast.Inspect(cc, func(n ast.Node) bool {
-			if e, isE := n.(ast.Expr); isE {
-				if s, isC := core.ConstString(info, e); isC && strings.HasPrefix(s, want) {
-					ok = true
+			if lit, isLit := n.(*ast.BasicLit); isLit && lit.Kind == token.STRING {
+				if s, isC := core.ConstString(info, lit); isC {
+					sb.WriteString(s)
+					sb.WriteString("\x00")
 				}
 			}
 			return true
 		})
-		return ok
+		text := sb.String()
+		at := 0
+		for _, t := range tokens {
+			i := strings.Index(text[at:], t)
+			if i < 0 {
+				return false
+			}
+			at += i + len(t)
+		}
+		return true
 	}
 	for _, spec := range []struct {
 		kind, prefix string
+		tokens       []string
 		elems        []string
-	}{{"ptr", "*", []string{"Elem"}}, {"chan", "chan ", []string{"Elem"}}, {"slice", "[]", []string{"Elem"}}, {"array", "[%d]", []string{"Elem"}}, {"map", "map[%s]%s", []string{"Key", "Elem"}}} {
+	}{{"ptr", "*", []string{"*"}, []string{"Elem"}}, {"chan", "chan ", []string{"chan "}, []string{"Elem"}}, {"slice", "[]", []string{"[]"}, []string{"Elem"}},
+		{"array", "[n]", []string{"[", "]"}, []string{"Elem"}}, {"map", "map[k]v", []string{"map[", "]"}, []string{"Key", "Elem"}}} {
 		cc := armOf[spec.kind]
 		if cc == nil {
 			continue
 		}
-		good := recurses(cc, spec.elems...) && constPrefix(cc, spec.prefix)
+		good := recurses(cc, spec.elems...) && constPrefix(cc, spec.tokens...)
 		if spec.kind == "array" {
 			good = good && len(core.Calls(cc, true)) >= 2
 			lenUsed := false
